@@ -55,7 +55,7 @@ inductive Event where
   /-- fuel exhausted: a task kept rescheduling a due task under an unlimited deadline
       (the code loops forever in that case as well) -/
   | fuel
-  deriving Repr
+  deriving Repr, DecidableEq
 
 structure St where
   todos : List Entry := []
